@@ -807,7 +807,62 @@ fn structurally_allowed(hist: &[Op], op: Op) -> bool {
 /// Constructs excluded from the `clean:*` passes: exactly the triggers of the findings recorded in
 /// findings.d/C21.json.  `hist` = letters so far (setup included), `m` = model state before `op`.
 fn avoid(hist: &[Op], m: &Model, op: Op) -> Option<&'static str> {
-    let _ = (hist, m, op);
+    let t = m.st.tables.get("t");
+    let has = |c: &str| t.map(|t| t.def.col_index(c).is_some()).unwrap_or(false);
+    let nonempty = t.map(|t| !t.rows.is_empty()).unwrap_or(false);
+    let indexed = |c: &str| m.st.indexes.values().any(|ix| ix.table == "t" && ix.columns.iter().any(|x| x == c));
+    match op {
+        // KF-C21-01: ADD COLUMN of an existing name is accepted
+        AZ | AZD | AZN if has("z") => return Some("KF-C21-01 duplicate ADD COLUMN"),
+        AYD if has("y") => return Some("KF-C21-01 duplicate ADD COLUMN"),
+        // KF-C21-03: a negative DEFAULT is stored as NULL
+        AZN if t.is_some() => return Some("KF-C21-03 negative DEFAULT"),
+        // KF-C21-02: the DEFAULT of an added column is not applied to existing rows
+        AZD | AYD if nonempty => return Some("KF-C21-02 ADD COLUMN DEFAULT on existing rows"),
+        // KF-C21-04: rows written before an ADD COLUMN panic in key / index lookups
+        AZ if nonempty => return Some("KF-C21-04 ADD COLUMN on existing rows"),
+        // KF-C21-07: CREATE INDEX on a column that does not exist is accepted
+        CI if t.is_some() && !has("b") && !m.st.indexes.contains_key("ib") => return Some("KF-C21-07 CREATE INDEX on a missing column"),
+        // KF-C21-08: RENAME COLUMN onto an existing name is accepted
+        RNX if has("c") && has("b") => return Some("KF-C21-08 RENAME onto an existing column"),
+        // KF-C21-09: DROP TABLE leaves the TOAST side table behind, the name cannot be re-created
+        CT1 | CT2 if t.is_none() && hist.contains(&DT) => return Some("KF-C21-09 re-CREATE after DROP TABLE"),
+        // KF-C21-05: any CREATE SCHEMA makes the persisted catalog unreadable
+        RO if !m.schemas.is_empty() => return Some("KF-C21-05 reopen with a user schema"),
+        _ => {}
+    }
+    // KF-C21-10 (= KF-C10-05): UPDATE of an indexed column leaves the index stale
+    if let (UPA | UPK, Some(t)) = (op, t) {
+        let target = if op == UPA { t.def.columns.last() } else { t.def.columns.get(1) };
+        if let Some(c) = target {
+            if indexed(&c.name) {
+                return Some("KF-C21-10 UPDATE of an indexed column");
+            }
+        }
+    }
+    // KF-C21-06 (= KF-C04-01): the row-id counter restarts at 1 on open: an INSERT into a table that
+    // held rows at the last reopen collides with their row ids
+    if op.is_insert() {
+        if let Some(ro) = hist.iter().rposition(|o| *o == RO) {
+            let mut mm = Model::default();
+            for &o in &hist[..ro] {
+                if let Ok(b) = build(o, &mm) {
+                    let mut m2 = mm.clone();
+                    if m_apply(&mut m2, &b.act) == MStep::Ok {
+                        mm = m2;
+                    }
+                }
+            }
+            let target = match op {
+                IU => "u",
+                IST => "s.t",
+                _ => "t",
+            };
+            if mm.st.tables.get(target).map(|t| !t.rows.is_empty()).unwrap_or(false) {
+                return Some("KF-C21-06 INSERT after reopen into a table that held rows");
+            }
+        }
+    }
     None
 }
 
@@ -815,7 +870,9 @@ struct Engine<'a> {
     ctx: &'a Ctx,
     plant: Plant,
     divergent: Vec<BTreeSet<Vec<Op>>>,
+    verified: Vec<BTreeSet<Vec<Op>>>,
     stop: bool,
+    dry: bool,
 }
 
 impl<'a> Engine<'a> {
@@ -857,25 +914,61 @@ impl<'a> Engine<'a> {
             hist.push(op);
             let key: Vec<Op> = hist[p.setup.len()..].to_vec();
             if leaf {
-                // lengths <= SPLIT: everybody executes (divergence knowledge), the owner reports
-                let report = if d <= SPLIT { self.ctx.mine(vcore::util::hash_of(&(p.name, &key))) } else { true };
-                self.leaf(p, pi, hist, &key, report, rep);
+                // lengths <= SPLIT are owned one by one (executed with the oracle after every step, because the
+                // owner of their prefix may be another worker); longer ones belong to the owner of their SPLIT-prefix
+                if d > SPLIT || self.ctx.mine(vcore::util::hash_of(&(p.name, &key))) {
+                    self.leaf(p, pi, hist, &key, d <= SPLIT, rep);
+                }
                 if self.ctx.expired() {
                     self.stop = true;
                 }
             } else if ms == MStep::Ok && !self.divergent[pi].contains(&key) {
-                let mine = len + 1 != SPLIT || self.ctx.mine(vcore::util::hash_of(&(p.name, &key)));
-                if mine {
-                    self.dfs(p, pi, d, hist, &m2, rep);
+                if len + 1 == SPLIT {
+                    if !self.ctx.mine(vcore::util::hash_of(&(p.name, &key))) {
+                        hist.pop();
+                        continue;
+                    }
+                    // first descent into an owned subtree: learn whether its root (or a prefix) diverges
+                    if !self.dry && self.verified[pi].insert(key.clone()) {
+                        let o = run_history(&self.ctx.scratch, hist, true, self.plant);
+                        if let Some((at, _)) = o.viol {
+                            let cut = (at + 1).saturating_sub(p.setup.len()).max(1).min(key.len());
+                            self.divergent[pi].insert(key[..cut].to_vec());
+                        }
+                    }
+                    if (1..=key.len()).any(|n| self.divergent[pi].contains(&key[..n])) {
+                        hist.pop();
+                        continue;
+                    }
                 }
+                self.dfs(p, pi, d, hist, &m2, rep);
             }
             hist.pop();
         }
     }
 
-    fn leaf(&mut self, p: &Pass, pi: usize, hist: &[Op], key: &[Op], report: bool, rep: &mut Reporter) {
-        let o = run_history(&self.ctx.scratch, hist, false, self.plant);
+    /// `short`: the history is not longer than SPLIT: its prefixes may belong to other workers, so the oracle
+    /// runs after every step and a violation before the last step only marks the prefix as divergent
+    fn leaf(&mut self, p: &Pass, pi: usize, hist: &[Op], key: &[Op], short: bool, rep: &mut Reporter) {
+        let report = true;
+        if self.dry {
+            // model-only enumeration (sizing aid, `--opt dry=1`): no execution, no verdict
+            if report {
+                rep.case(vcore::util::hash_of(&(p.name, hist)), false);
+                rep.count(&format!("dry:{}:len{}", p.name, key.len()), 1);
+            }
+            return;
+        }
+        let o = run_history(&self.ctx.scratch, hist, short, self.plant);
         let last = *hist.last().unwrap();
+        if let Some((at, _)) = &o.viol {
+            if at + 1 < hist.len() {
+                // a proper prefix diverges: that history is reported by its own owner
+                let cut = (at + 1).saturating_sub(p.setup.len()).max(1).min(key.len());
+                self.divergent[pi].insert(key[..cut].to_vec());
+                return;
+            }
+        }
         if report {
             let ddl = hist.iter().filter(|o| o.ddl_kind().is_some()).count();
             let other = hist.iter().any(|o| o.ddl_kind().is_none());
@@ -957,7 +1050,7 @@ impl Check for C21 {
         for c in ["reopens", "rows_loaded", "plan:index-lookup", "plan:pk-lookup", "alter+reopen histories", "model:ok", "err:already-exists", "err:not-found"] {
             rep.expect_nonzero(c);
         }
-        let mut eng = Engine { ctx, plant: Plant::from_ctx(ctx), divergent: vec![BTreeSet::new(); ps.len()], stop: false };
+        let mut eng = Engine { ctx, plant: Plant::from_ctx(ctx), divergent: vec![BTreeSet::new(); ps.len()], verified: vec![BTreeSet::new(); ps.len()], stop: false, dry: ctx.opt("dry").is_some() };
         // setups must be clean themselves
         let mut usable = vec![true; ps.len()];
         for (pi, p) in ps.iter().enumerate() {
